@@ -42,6 +42,7 @@ type Frame struct {
 	isDefer   bool            // called as a deferred function of the parent frame
 	unwinding bool
 	loopSeen  map[*ssa.BasicBlock]bool
+	loopEv    map[*ssa.BasicBlock]int // number of events when the loop header was first reached
 	pre       *preSnap // pre-state snapshot for contract checking (root frame or checked-inline)
 	depth     int
 }
